@@ -61,5 +61,9 @@ class SRLB(TLV):
                     data = struct.unpack('!I', value[7:7 + length])[0]
                     value = value[7 + length:]
                     tmp['sid'] = data
+                else:
+                    # a SID/Label sub-TLV is 3 or 4 octets long; skip anything
+                    # else so that the loop always makes progress
+                    value = value[7 + length:]
                 results.append(tmp)
         return cls(value=results)
